@@ -402,7 +402,10 @@ class DocutilsRenderer(RendererProtocol):
             elif key == "id":
                 name = nodes.fully_normalize_name(str(value))
                 node["names"].append(name)
-                self.document.note_explicit_target(node, node)
+                # a "duplicate target" message goes before the node (as for `(name)=`),
+                # so that it does not become content of a code/math/image leaf
+                msgnode = node if isinstance(node, nodes.section) else self.current_node
+                self.document.note_explicit_target(node, msgnode)
             else:
                 if key in converters:
                     try:
@@ -1442,7 +1445,7 @@ class DocutilsRenderer(RendererProtocol):
         self.add_line_and_source_path(node, token)
         name = nodes.fully_normalize_name(label)
         node["names"].append(name)
-        self.document.note_explicit_target(node, node)
+        self.document.note_explicit_target(node, self.current_node)
         self.current_node.append(node)
 
     def render_amsmath(self, token: SyntaxTreeNode) -> None:
